@@ -17,14 +17,17 @@ Ev == Events[l]
 AllServers == ToSet(C.servers)
 Keys == ToSet(C.keys)
 Preferred == ToSet(C.preferred)
-CertsOf == [s \in AllServers |-> {[signer |-> c.signer, subject |-> c.subject, expires |-> c.expires, tamper |-> c.tamper] : c \in ToSet(C.certs[s])}]
+AbsCerts(cs) == {[signer |-> c.signer, subject |-> c.subject, expires |-> c.expires, tamper |-> c.tamper] : c \in ToSet(cs)}
+\* tamper = "malformed": an announced entry that is not a well-formed certificate; it verifies for no key (SigOK needs "none")
 
+\* S.conn[client]: connected servers; S.certs[client][server]: the certificates of the announcement the client accepted last
 V(c, s) == [c |-> c, s |-> s]
 
 \* names the first clause a result breaks ("" = it is the Spec's answer)
-Judge(conn, e, res) ==
-  LET pool == Pool(conn, e.forUpload, Keys, CertsOf, e.now)
-      exp == ServersForPsi(conn, Preferred, e.rank, e.forUpload, Keys, CertsOf, e.now)
+Judge(cl, e, res) ==
+  LET conn == S.conn[cl]
+      pool == Pool(conn, e.forUpload, Keys, S.certs[cl], e.now)
+      exp == ServersForPsi(conn, Preferred, e.rank, e.forUpload, Keys, S.certs[cl], e.now)
   IN IF res = exp THEN ""
      ELSE IF ~NoDup(res) \/ ~(ToSet(res) \subseteq conn) THEN "C32_not_connected_or_duplicate"
      ELSE IF e.forUpload /\ ~(ToSet(res) \subseteq pool) THEN "C32_UploadFilter"
@@ -33,23 +36,43 @@ Judge(conn, e, res) ==
      ELSE IF ~RankAscending(res, Preferred, e.rank) THEN "C32_RankOrder"
      ELSE "C32_order_differs"
 
-VSet(e) == V("", [S EXCEPT ![e.client] = IF e.connected THEN @ \cup {e.sid} ELSE @ \ {e.sid}])
-VQuery(e) == V(Judge(S[e.client], e, e.res), S)
+SetConn(cl, sid, on) == [S EXCEPT !.conn[cl] = IF on THEN @ \cup {sid} ELSE @ \ {sid}]
+VSet(e) == V("", SetConn(e.client, e.sid, e.connected))
+\* An announcement handed to the broker.  Whether the broker keeps the connection, and whether it accepts an
+\* announcement with an entry that is no certificate at all, is not the properties' business (observed); once it
+\* has accepted an announcement, that announcement's certificates are the ones the server "currently holds".
+VAnnounce(e) ==
+  LET T == SetConn(e.client, e.sid, e.connected) IN
+  IF e.connected /\ ~e.known THEN V("C32_connected_server_unknown", S)
+  ELSE IF e.accepted THEN V("", [T EXCEPT !.certs[e.client][e.sid] = AbsCerts(e.certs)])
+  ELSE V("", T)
+VQuery(e) == V(Judge(e.client, e, e.res), S)
+SameView(e) == /\ S.conn["A"] = S.conn["B"]
+               /\ Pool(S.conn["A"], e.forUpload, Keys, S.certs["A"], e.now) = Pool(S.conn["B"], e.forUpload, Keys, S.certs["B"], e.now)
 VQueryBoth(e) ==
-  IF S["A"] = S["B"] /\ e.resA # e.resB THEN V("C32_Consistent", S)
-  ELSE IF Judge(S["A"], e, e.resA) # "" THEN V(Judge(S["A"], e, e.resA), S)
-  ELSE V(Judge(S["B"], e, e.resB), S)
+  IF SameView(e) /\ e.resA # e.resB THEN V("C32_Consistent", S)
+  ELSE IF Judge("A", e, e.resA) # "" THEN V(Judge("A", e, e.resA), S)
+  ELSE V(Judge("B", e, e.resB), S)
+\* C33 at the place where the client consults it: upload_permitted() of the server objects
+VPermits(e) ==
+  LET bad1 == {s \in DOMAIN e.res : e.res[s] /\ GMVerdict(Keys, S.certs[e.client][s], s, e.now) = "deny"}
+      bad2 == {s \in DOMAIN e.res : ~e.res[s] /\ GMVerdict(Keys, S.certs[e.client][s], s, e.now) = "permit"}
+  IN IF bad1 # {} THEN V("C33_permitted_without_valid_certificate", S)
+     ELSE IF bad2 # {} THEN V("C33_valid_certificate_denied", S)
+     ELSE V("", S)
 
 Verdict(e) ==
   CASE e.ev = "Set"       -> VSet(e)
+    [] e.ev = "Announce"  -> VAnnounce(e)
     [] e.ev = "Query"     -> VQuery(e)
     [] e.ev = "QueryBoth" -> VQueryBoth(e)
+    [] e.ev = "Permits"   -> VPermits(e)
     [] OTHER              -> V("unknown_event", S)
 
 TraceInit ==
   /\ tid \in 1..Len(Traces)
   /\ l = 1
-  /\ S = [c \in {"A", "B"} |-> {}]
+  /\ S = [conn |-> [c \in {"A", "B"} |-> {}], certs |-> [c \in {"A", "B"} |-> [s \in AllServers |-> {}]]]
   /\ bad = "none"
 
 TraceNext ==
